@@ -1,6 +1,6 @@
 SPECIFICATION DSpec
 CONSTANTS
-  Pinned = {"default_text", "const_as_field"}
+  Pinned = {"default_text", "const_as_field", "elem_int_subclass"}
   Pads = {}
   FmtSel = {}
   ClsSel = {}
@@ -9,7 +9,9 @@ CONSTANTS
   MaxFields = 1
   MaxConsts = 1
   CKinds = {"int", "text", "tuple", "msgid", "method"}
-  Kinds = {"?", "H", "I", "q", "20s", "varlenH", "varlenHutf8", "bits", "payload", "payload-list", "address", "arrayH-q", "raw"}
+  Kinds = {"?", "H", "I", "q", "20s", "varlenH", "varlenHutf8", "bits", "payload", "payload-list", "address", "arrayH-q", "d", "arrayH-?", "arrayH-d", "raw"}
 INVARIANT ConstsOffWire
+INVARIANT AnnotationsMean
 INVARIANT DefaultsUsed
 INVARIANT RoundTripDef
+CONSTRAINT AnnFocus
